@@ -114,11 +114,28 @@ func obs(r evalResult, timedOut bool, wantRepr bool) map[string]any {
 		out["msg"] = r.panic
 	case r.err != nil:
 		out["st"] = "err"
-		msg := r.err.Error()
-		if len(msg) > 300 {
-			msg = msg[:300]
+		// Rendering the text of some parse errors takes exponential time
+		// (wbnf ParseError.Error): never wait for it unboundedly.
+		ch := make(chan string, 1)
+		go func() {
+			defer func() {
+				if p := recover(); p != nil {
+					ch <- "panic while rendering the error: " + fmt.Sprint(p)
+				}
+			}()
+			ch <- r.err.Error()
+		}()
+		select {
+		case msg := <-ch:
+			if len(msg) > 300 {
+				msg = msg[:300]
+			}
+			out["msg"] = msg
+		case <-time.After(1500 * time.Millisecond):
+			out["msg"] = "<error text not rendered within 1.5s>"
+			out["slow_error_text"] = true
+			out["exit_after"] = true
 		}
-		out["msg"] = msg
 	default:
 		func() {
 			defer func() {
